@@ -66,7 +66,7 @@ def ops_c16(tr):
         elif k == 2: op = {"a": "remove_member", "g": f"e{a}", "x": f"e{b}"}
         elif k == 3: op = {"a": "set_refers", "c": "e3", "x": f"e{b}"}
         elif k == 4: op = {"a": "delete", "ids": setcode(a)}
-        elif k == 5: op = {"a": "revive", "id": f"e{a}"}
+        elif k == 5: op = {"a": "revive", "ids": [f"e{a}"]}
         elif k == 6:
             t += RMAX + 10
             op = {"a": "purge_recycled"}
@@ -96,7 +96,7 @@ def ops_c18(tr):
         if k == 1: op = {"a": "create_person", "id": f"e{a}", "n": f"n{a}", "d": vals[b]}
         elif k == 2: op = {"a": "set_desc", "id": f"e{a}", "d": vals[b]}
         elif k == 3: op = {"a": "delete", "ids": [f"e{a}"]}
-        elif k == 4: op = {"a": "revive", "id": f"e{a}"}
+        elif k == 4: op = {"a": "revive", "ids": [f"e{a}"]}
         elif k == 5: op = {"a": "create_dyn", "id": "e5", "n": "n5", "f": _F18[b], "d": "x1"}
         elif k == 6: op = {"a": "set_filter", "d": f"e{a}", "f": _F18[b]}
         else:
@@ -121,7 +121,7 @@ def ops_c22(tr):
         elif k == 2: op = {"a": "rename", "id": f"e{a}", "n": f"n{b}"}
         elif k == 3: op = {"a": "domain_rename", "dom": doms[a]}
         elif k == 4: op = {"a": "delete", "ids": [f"e{a}"]}
-        elif k == 5: op = {"a": "revive", "id": f"e{a}"}
+        elif k == 5: op = {"a": "revive", "ids": [f"e{a}"]}
         else: op = {"a": "set_desc", "id": f"e{a}", "d": "x2"}
         op["t"] = t
         ops.append(op)
@@ -129,17 +129,19 @@ def ops_c22(tr):
 
 
 def ops_c26(tr, unit):
-    """KRecycleMC: 1 person (member of group 2, target of certificate 3); edits <<kind, arg, dt>>;
+    """KRecycleMC: 1 and 4 persons, both members of group 2; 1 is the target of certificate 3; edits
+    <<kind, arg, dt>>, delete / revive name a SET of entries (set code) and are ONE operation;
     one model time unit = `unit` seconds (RMax = CMax = 2 units = the build's retention constants)"""
     ops = [{"a": "create_batch", "t": 10, "ents": [
         {"k": "usr", "id": "e1", "n": "n1", "d": "x1"},
-        {"k": "grp", "id": "e2", "n": "n2", "m": ["e1"], "d": ""},
+        {"k": "usr", "id": "e4", "n": "n4", "d": "x1"},
+        {"k": "grp", "id": "e2", "n": "n2", "m": ["e1", "e4"], "d": ""},
         {"k": "cert", "id": "e3", "r": "e1"}]}]
     now = 0
     for k, a, dt in tr:
         now += dt
-        if k == 1: op = {"a": "delete", "ids": [f"e{a}"]}
-        elif k == 2: op = {"a": "revive", "id": f"e{a}"}
+        if k == 1: op = {"a": "delete", "ids": setcode(a)}
+        elif k == 2: op = {"a": "revive", "ids": setcode(a)}
         elif k == 3: op = {"a": "purge_recycled"}
         elif k == 4: op = {"a": "purge_tombstones"}
         elif k == 5: op = {"a": "remove_member", "g": "e2", "x": "e1"}
@@ -147,6 +149,11 @@ def ops_c26(tr, unit):
         op["t"] = 10 + unit * now
         ops.append(op)
     return ops
+
+
+def multi_revive(tr):
+    """does this model history revive two or more entries with one operation?"""
+    return any(k == 2 and bin(a).count("1") >= 2 for k, a, _ in tr)
 
 
 def write_replay(path, histories):
